@@ -120,8 +120,8 @@ func runC08(ctx *core.Ctx, out *core.Out) {
 	hasClose := len(st.Events) > 0 && st.Events[len(st.Events)-1].Kind == 8
 	out.Eval(fmt.Sprintf("%x|%s|%d", core.Hash(string(st.Bytes)), core.J(ex), failAt), between || hasClose)
 	hist := 0
-	if failAt < 0 && r.Chance(1, 3) {
-		hist = 1 + r.Intn(2)
+	if failAt < 0 && r.Chance(1, 2) {
+		hist = 1 + r.Intn(3)
 	}
 	c08ExecH(ctx, out, st, ex, failAt, hist)
 	if ctx.Idx%1499 == 0 {
@@ -140,7 +140,7 @@ func c08Exec(ctx *core.Ctx, out *core.Out, st *Stream, ex rdExec, failAt int) bo
 func c08ExecH(ctx *core.Ctx, out *core.Out, st *Stream, ex rdExec, failAt int, hist int) bool {
 	r := ctx.R
 	fail := func(sig, what string, log []c08Ev) bool {
-		d := map[string]interface{}{"exec": ex, "stream": st.Summary(), "bytes": core.Trunc(st.Bytes, 500), "handler_fails_at_control": failAt, "history": []string{"fresh", "application sent its close first", "every transport write fails"}[hist]}
+		d := map[string]interface{}{"exec": ex, "stream": st.Summary(), "bytes": core.Trunc(st.Bytes, 500), "handler_fails_at_control": failAt, "history": []string{"fresh", "application sent its close first", "every transport write fails", "stale expired write deadline"}[hist]}
 		if log != nil {
 			if len(log) > 40 {
 				log = log[:40]
@@ -173,6 +173,10 @@ func c08ExecH(ctx *core.Ctx, out *core.Out, st *Stream, ex rdExec, failAt int, h
 		}
 	case 2:
 		nc.WriteErr = io.ErrClosedPipe
+	case 3:
+		// the application's per-write deadline of an earlier write has passed; the
+		// default handlers' replies must not inherit it (all echoes still demanded)
+		c.SetWriteDeadline(time.Now().Add(-time.Second))
 	}
 	var log []c08Ev
 	seq := 0
@@ -365,7 +369,7 @@ func c08ExecH(ctx *core.Ctx, out *core.Out, st *Stream, ex rdExec, failAt int, h
 		out.Count("handler_errors_checked", 1)
 		return sticky(errHandler)
 	}
-	if hist != 0 {
+	if hist == 1 || hist == 2 {
 		// echoes are best effort and cannot succeed here; everything the reader owes
 		// the application is unchanged, and nothing may follow the local close
 		out.Count("streams_read_after_local_close_or_with_broken_writes", 1)
